@@ -65,7 +65,9 @@ CATALOG['const_transmute'] = lambda f, s, n: scenarios.transmute_guard(f, s, n, 
 CATALOG['const_transmute.ctfe'] = lambda f, s, n: scenarios.transmute_guard(f, s, n, ctfe=True, name='const_transmute.ctfe')
 
 if __name__ == '__main__':
-    fns = mirsym.parse_mir(open(sys.argv[1]).read())
+    MIR_TEXT = open(sys.argv[1]).read()
+    CATALOG['serde.visit_seq'] = lambda f, s, n: scenarios.serde_visit_seq(f, s, n, name='serde.visit_seq', mir_text=MIR_TEXT)
+    fns = mirsym.parse_mir(MIR_TEXT)
     src, nmax = sys.argv[2], int(sys.argv[3])
     if sys.argv[4:] == ['validate.iter']:
         mirsym.set_mode('bv')
